@@ -119,7 +119,7 @@ func (i *Interpreter) evaluateAsyncExpr(expr AsyncExpr, env *Environment) (inter
 
 	// Create a child environment for the async block
 	// This captures the current scope for use in the goroutine
-	asyncEnv := NewChildEnvironment(env)
+	asyncEnv := NewChildEnvironment(env.snapshot())
 
 	// Execute the async block in a separate goroutine
 	go func() {
